@@ -235,6 +235,39 @@ def concrete(repo, seed, n):
                                 what="coupled frequency response does not solve (-W^2 M + iW B + K) d = F (or v, a not iW d, -W^2 d)")
             if Fuse is not F:
                 ref = ref_keep
+        # solvepsd in floating point: rigid-body, elastic and residual-flexibility modes with uncertainty factors; the response PSD of every recovery row is
+        # sum_i PSD_i |sum_k drm_k * u_k * H_k,i|^2 with u = rbduf on rigid-body rows, elduf on elastic rows and 1 on residual-flexibility rows; rms = trapezoid area
+        mS, bS, kS = np.array([2.0, 1.5, 3.0, 1.0]), np.array([0.0, 0.7, 1.1, 0.0]), np.array([0.0, 120.0, 400.0, 9000.0])
+        fqS = np.sort(rng.rand(9) * 6 + 0.3)
+        psdS = rng.rand(2, fqS.size) + 0.1
+        tfS = rng.randn(4, 2)
+        drmA, drmD = rng.randn(3, 4), rng.randn(3, 4)
+        for rbduf_, elduf_ in ((1.0, 1.0), (1.2, 1.0), (1.0, 1.5), (1.3, 0.8)):
+            for rfS in (None, [3]):
+                for cls_ in ("SolveUnc", "FreqDirect"):
+                    fsS = getattr(ode, cls_)(mS, bS, kS, rf=rfS) if cls_ == "SolveUnc" else getattr(ode, cls_)(mS, bS, kS, rf=rfS, rb=[0])
+                    rmsS, psdoS = ode.solvepsd(fsS, psdS, tfS, fqS, [[drmA, None, None, None], [None, None, drmD, None]], rbduf=rbduf_, elduf=elduf_)
+                    ev += 1
+                    WS = 2 * np.pi * fqS
+                    u = np.array([rbduf_, elduf_, elduf_, elduf_ if rfS is None else 1.0])
+                    wantA, wantD = np.zeros((3, fqS.size)), np.zeros((3, fqS.size))
+                    for i_ in range(2):
+                        Hd = np.empty((4, fqS.size), complex)
+                        for k_ in range(4):
+                            if rfS is not None and k_ == 3:
+                                Hd[k_] = tfS[k_, i_] / kS[k_]                                  # residual flexibility: static
+                            else:
+                                Hd[k_] = tfS[k_, i_] / (-WS ** 2 * mS[k_] + 1j * WS * bS[k_] + kS[k_])
+                        Ha = -WS ** 2 * Hd           # (rf rows: v = iW d, a = -W^2 d of the static displacement - the default rf_disp_only=False)
+                        wantA += psdS[i_] * abs(drmA @ (u[:, None] * Ha)) ** 2
+                        wantD += psdS[i_] * abs(drmD @ (u[:, None] * Hd)) ** 2
+                    okS = np.allclose(psdoS[0], wantA, rtol=1e-8) and np.allclose(psdoS[1], wantD, rtol=1e-8)
+                    for got_, w_ in ((rmsS[0], wantA), (rmsS[1], wantD)):
+                        area = np.sqrt(np.sum(np.diff(fqS) * (w_[:, :-1] + w_[:, 1:]), axis=1) / 2)
+                        okS = okS and np.allclose(got_, area, rtol=1e-8)
+                    if not okS:
+                        return ev, dict(solver=cls_, what="solvepsd: response PSD / rms differ from sum_i PSD_i |drm (u * H_i)|^2 with u = rbduf / elduf / 1 on rigid-body / elastic / "
+                                        "residual-flexibility rows", rbduf=rbduf_, elduf=elduf_, rf=rfS)
         # diagonal system with rb + 0 Hz anywhere in the frequency vector, permutation invariance
         m_, b_, k_ = np.array([2.0, 1.0, 3.0]), np.array([0.0, 0.4, 0.6]), np.array([0.0, 90.0, 150.0])
         fq = np.array([1.5, 0.0, 4.0, 2.5])[rng.permutation(4)]
